@@ -1,9 +1,16 @@
 """Gen_Poly runs shared by C05 / C06 / C14 / C10 / C12."""
 
 
+BIG = dict(name="big", module="Gen_Poly", constants=dict(K=1, MaxV=3, WithHoles=False, HoleMinA2=0, BigN="{8, 65, 130}"), invariants=["ShellOK"])
+
+
 def poly_runs(tier):
+    return _runs(tier) + [BIG]
+
+
+def _runs(tier):
     if tier == "quick":
-        return [dict(name="g3v5", module="Gen_Poly", constants=dict(K=3, MaxV=5, WithHoles=True, HoleMinA2=0), invariants=["ShellOK"]),
-                dict(name="g4v4big", module="Gen_Poly", constants=dict(K=4, MaxV=4, WithHoles=True, HoleMinA2=20), invariants=["ShellOK"])]
-    return [dict(name="g3v6", module="Gen_Poly", constants=dict(K=3, MaxV=6, WithHoles=True, HoleMinA2=0), invariants=["ShellOK"], timeout=3000),
-            dict(name="g4v4", module="Gen_Poly", constants=dict(K=4, MaxV=4, WithHoles=True, HoleMinA2=0), invariants=["ShellOK"], timeout=3000)]
+        return [dict(name="g3v5", module="Gen_Poly", constants=dict(K=3, MaxV=5, WithHoles=True, HoleMinA2=0, BigN="{}"), invariants=["ShellOK"]),
+                dict(name="g4v4big", module="Gen_Poly", constants=dict(K=4, MaxV=4, WithHoles=True, HoleMinA2=20, BigN="{}"), invariants=["ShellOK"])]
+    return [dict(name="g3v6", module="Gen_Poly", constants=dict(K=3, MaxV=6, WithHoles=True, HoleMinA2=0, BigN="{}"), invariants=["ShellOK"], timeout=3000),
+            dict(name="g4v4", module="Gen_Poly", constants=dict(K=4, MaxV=4, WithHoles=True, HoleMinA2=0, BigN="{}"), invariants=["ShellOK"], timeout=3000)]
